@@ -15,7 +15,7 @@ import z3
 
 import e2
 from common import Report, build_native
-from mir_exec import Agg, SBool, SInt, SymOpt, field_of, load_program, mk_int
+from mir_exec import Agg, SBool, SInt, Str, SymOpt, field_of, load_program, mk_int
 from mir_models import as_str, deref, none, some, to_symopt, z_and, z_not, z_or
 from props import execmodel as X
 
@@ -440,6 +440,162 @@ def replay_script_skip(rep, h, res):
             rep.mismatches.append("%s: solver witness %s did not reproduce natively: %s" % (h.name, w, nv))
 
 
+# ---- the per-process runner: what it asks of the process and how it reports it -----------------------------------------------------
+
+def h_subprocess_runner(prog):
+    """SubprocessRunner::run with the `subprocess` crate replaced by a recording stub: time limit, standard input, stream redirection,
+    and the status it reports when the read times out / succeeds"""
+    import itertools
+    from mir_exec import MapBuf, Opaque, Slice, StringBuf, VecBuf, find_method, mk_struct, new_ref, UNIT
+    from mir_models import ok, err, as_items
+
+    class RunnerModels(X.ExecModels):
+        def __init__(self):
+            super().__init__(prog)
+            import re as _re
+            ins = lambda pat, fn: self.table.insert(0, (_re.compile("^(?:%s)$" % pat), fn))
+            rec = lambda c: c.notes.setdefault("proc", {})
+
+            def builder(name):
+                def f(c, m, a):
+                    if name in ("stdout", "stderr", "stdin"):
+                        v = deref(a[1])
+                        rec(c)[name] = v.variant if isinstance(v, Agg) and v.variant else (v.ty if isinstance(v, Agg) else str(v))
+                    return Opaque("Exec")
+                return f
+            for n in ("cmd", "env_extend", "cwd", "stdout", "stderr", "stdin", "detached"):
+                ins(r"(?:subprocess::)?Exec::%s(?:::<.*>)?" % n, builder(n))
+            ins(r"(?:subprocess::)?Exec::popen", lambda c, m, a: ok(Opaque("Popen")))
+            ins(r"(?:subprocess::)?Popen::pid", lambda c, m, a: none())
+
+            def communicate_start(c, m, a):
+                inp = a[1]
+                rec(c)["stdin_bytes"] = [b.v for b in as_items(inp.fields[0])] if inp.variant == "Some" else None
+                return Agg("Communicator", None, [none()])
+            ins(r"(?:subprocess::)?Popen::communicate_start", communicate_start)
+
+            def limit_time(c, m, a):
+                rec(c).setdefault("limits", []).append(a[1])
+                return Agg("Communicator", None, [some(a[1])])
+            ins(r"(?:subprocess::)?Communicator::limit_time", limit_time)
+
+            def read(c, m, a):
+                comm = deref(a[0])
+                rec(c)["limit_at_read"] = comm.fields[0]
+                out = some(VecBuf([SInt(b, "u8") for b in b"o\r\n"], "u8"))
+                er = some(VecBuf([SInt(b, "u8") for b in b"e\n"], "u8"))
+                if c.notes["times_out"]:
+                    return err(Agg("CommunicateError", None, [Agg("ErrorKind", "TimedOut", []), Agg("tuple", None, [out, er])]))
+                return ok(Agg("tuple", None, [out, er]))
+            ins(r"(?:subprocess::)?Communicator::read", read)
+            ins(r"(?:subprocess::)?CommunicateError::kind", lambda c, m, a: deref(a[0]).fields[0])
+            kind_name = lambda v: (deref(v).variant or deref(v).ty) if isinstance(deref(v), Agg) else str(deref(v))
+            ins(r"<std::io::ErrorKind as PartialEq>::eq|<ErrorKind as PartialEq>::eq", lambda c, m, a: SBool(kind_name(a[0]) == kind_name(a[1])))
+            from props.c05 import subprocess_variants
+            from mir_exec import ENUMS as _EN
+            _EN["subprocess::ExitStatus"] = subprocess_variants()
+            ins(r"(?:subprocess::)?Popen::wait", lambda c, m, a: ok(Agg("subprocess::ExitStatus", "Exited", [mk_int(3, "u32")])))
+            ins(r"<subprocess::ExitStatus as Into<(?:output::|scrut::output::)?ExitStatus>>::into",
+                lambda c, m, a: c.call(find_method(c.program, "subprocess_runner.rs", "from"), [a[0]]))
+            ins(r"tempfile_in::<.*>|tempfile::tempfile_in::<.*>", lambda c, m, a: ok(Opaque("File")))
+            ins(r"<std::fs::File as (?:std::io::)?Write>::write|<File as Write>::write", lambda c, m, a: ok(mk_int(0, "usize")))
+            ins(r"<std::fs::File as (?:std::io::)?Seek>::seek|<File as Seek>::seek", lambda c, m, a: ok(mk_int(0, "u64")))
+            ins(r"<Vec<\(&String, &String\)> as FromIterator<.*>>::from_iter::<.*>", lambda c, m, a: VecBuf([]))
+
+        def const(self, ctx, name):
+            if name.endswith("ErrorKind::TimedOut") or name.endswith("TimedOut"):
+                return Agg("ErrorKind", "TimedOut", [])
+            return X.ExecModels.const(self, ctx, name)
+
+    def mk(stream, detached, times_out):
+        def setup(ctx):
+            ctx.notes["times_out"] = times_out
+            ctx.notes["stream"] = stream
+            ctx.notes["detached"] = detached
+            timeout = X.sym_opt_dur(ctx, "limit")
+            ctx.notes["timeout"] = timeout
+            cfg = mk_struct("TestCaseConfig", detached=some(SBool(True)) if detached else none(), environment=MapBuf([]), keep_crlf=none(),
+                            output_stream=some(Agg("OutputStreamControl", stream, [])) if stream else none(), skip_document_code=none(),
+                            strip_ansi_escaping=none(), timeout=timeout, wait=none())
+            tc = mk_struct("TestCase", title=StringBuf([]), shell_expression=StringBuf([SInt(ord(c), "char") for c in "echo {x}"]), expectations=VecBuf([]),
+                           exit_code=none(), line_number=mk_int(1, "usize"), config=cfg)
+            cx = X.mk_context(ctx, none())
+            return [tc, cx]
+        return setup
+
+    def drive(ctx, args):
+        """<SubprocessRunner as Runner>::run with a recording process stub"""
+        f = find_method(ctx.program, "subprocess_runner.rs", "run")
+        runner = Agg("SubprocessRunner", None, [Opaque("shell")])
+        return ctx.call(f, [new_ref(runner), Str([SInt(ord("n"), "char")]), new_ref(args[0]), new_ref(args[1])])
+
+    def post(ctx, args, kind, value):
+        if kind != "return" or value.variant != "Ok":
+            return False
+        proc = ctx.notes.get("proc", {})
+        out = value.fields[0]
+        status = field_of(out, "exit_code")
+        if ctx.notes["detached"]:
+            return status.variant == "Detached"
+        t = to_symopt(ctx.notes["timeout"])
+        limit = proc.get("limit_at_read")
+        conds = []
+        # the process gets exactly the expression on its standard input
+        if proc.get("stdin_bytes") != list(b"echo {x}"):
+            return False
+        # the error stream is merged into the output iff `combined`
+        if proc.get("stderr") != ("Merge" if ctx.notes["stream"] == "Combined" else "Pipe") or proc.get("stdout") != "Pipe":
+            return False
+        # the time limit is exactly the test case's (a zero limit is a limit), none if it has none
+        if limit is None:
+            return False
+        if limit.variant == "Some":
+            conds.append(t.present.z())
+            conds.append(X.nanos(limit.fields[0]).z() == X.nanos(t.fields[0]).z())
+        else:
+            conds.append(z3.Not(t.present.z()))
+        if ctx.notes["times_out"]:
+            if status.variant != "Timeout":
+                return False
+        else:
+            if not (status.variant == "Code" and status.fields[0].concrete and status.fields[0].v == 3):
+                return False
+            so = [b.v for b in as_items(field_of(out, "stdout").fields[0])]
+            if so != list(b"o\n"):
+                return False          # CR LF → LF (keep_crlf unset)
+        return z_and([z3.simplify(zb(c_)) for c_ in conds]) if conds else True
+    inputs = [("stream=%s detached=%s read-times-out=%s" % (s_, d_, t_), mk(s_, d_, t_))
+              for s_ in (None, "Stdout", "Stderr", "Combined") for d_ in (False, True) for t_ in (False, True) if not (d_ and t_)]
+    h = e2.Harness("runner_process_contract", drive, inputs, post, native=None, judge=None,
+                   describe="SubprocessRunner::run: standard input = the shell expression; stderr merged iff output_stream is combined; the time limit handed to "
+                            "the process is exactly the test case's timeout (zero included), none without one; a timed-out read is reported as Timeout, a finished "
+                            "process with its exit code and CR LF-translated output; detached test cases are reported Detached",
+                   bound="every output_stream setting × detached × read outcome; any timeout (absent, zero, any value)")
+    h.models_cls = RunnerModels
+    return h
+
+
+def replay_runner(rep, h, res):
+    """end to end: the real runner on real processes — a zero limit, a short limit, no limit"""
+    for model, r in res.raw_witnesses[:3]:
+        t = to_symopt(r.ctx.notes["timeout"])
+        present = bool(z3.is_true(model.eval(t.present.z(), model_completion=True)))
+        ns = e2.model_int(model, X.nanos(t.fields[0])) if present else None
+        bad = None
+        for limit_ms, cmd, want in ((0, "sleep 1; echo late", "timeout"), (300, "sleep 2; echo late", "timeout"), (None, "echo fine", "0")):
+            nk, nv = NAT.call("bash_run", [cmd, limit_ms])
+            got = nv.get("status") if nk == "return" else str(nv)
+            if not str(got).lower().startswith(want):
+                bad = bad or ("`%s` with a limit of %s ms ends as %s, expected %s" % (cmd, limit_ms, got, want), [cmd, limit_ms], [nk, nv])
+        if bad:
+            rep.violation("runner:time-limit", "the per-process runner: %s" % bad[0], {"kind": "eval", "fn": "bash_run", "args": bad[1], "native": bad[2], "harness": h.name})
+        else:
+            rep.violation("runner:mir-only", "SubprocessRunner::run breaks its process contract for stream=%s detached=%s read-times-out=%s, timeout %s "
+                          "(decided on its MIR against a recording process stub; the end-to-end probes with 0 ms / 300 ms / no limit behave)"
+                          % (r.ctx.notes["stream"], r.ctx.notes["detached"], r.ctx.notes["times_out"], ("%d ns" % ns) if present else "unset"),
+                          {"kind": "mir-only", "harness": h.name})
+
+
 def run_claims(pid, rep, prog, tier):
     global NAT
     n_max = 2 if tier == "quick" else 3
@@ -504,6 +660,11 @@ def run_claims(pid, rep, prog, tier):
         else:
             rep.mismatches.append("%s: solver witness did not reproduce natively: %s → %s" % (h.name, w, nv))
     e2.record(rep, h, res)
+    if pid == "C14":
+        hr = h_subprocess_runner(prog)
+        resr = e2.run_with_raw(prog, hr, max_witnesses=3)
+        replay_runner(rep, hr, resr)
+        e2.record(rep, hr, resr)
     if pid == "C15":
         hs = h_script_skip(prog, 2 if tier == "quick" else 3)
         ress = e2.run_with_raw(prog, hs, max_witnesses=4)
